@@ -22,13 +22,8 @@ type cgen struct {
 	feats map[string]bool
 }
 
-func (g *cgen) pick(label string, n int) int {
-	if n <= 1 {
-		return 0
-	}
-	return rapid.IntRange(0, n-1).Draw(g.t, label)
-}
-func (g *cgen) chance(label string, pct int) bool { return rapid.IntRange(0, 99).Draw(g.t, label) < pct }
+func (g *cgen) pick(label string, n int) int          { return Uniform(g.t, label, n) }
+func (g *cgen) chance(label string, pct int) bool { return Chance(g.t, label, pct) }
 func (g *cgen) lit(label string) uint64 {
 	return []uint64{1, 2, 3, 5, 7, 10, 100, 255, 1 << 32, 1<<64 - 1}[g.pick(label, 10)]
 }
@@ -137,6 +132,9 @@ func GenerateConcurrent(t *rapid.T) *ConcProgram {
 	body := func(id string, keyBase int) string {
 		var s strings.Builder
 		ws := func(format string, a ...any) { fmt.Fprintf(&s, format, a...) }
+		if id == "idx" {
+			ws("\t\t_ = idx\n")
+		}
 		if g.chance("sleep", 20) {
 			useMachine = true
 			g.feat("sleep")
